@@ -21,6 +21,7 @@ CONSTANTS
   RLen = 3
   VecTypes = {"c", "b", "y", "i", "x", "f", "d", "l"}
   VecLen = 2
+  SinkTypes = {"b", "y", "n", "q", "i", "u", "x", "t", "l"} SinkCaps = {1, 3, 5, 10} SinkLefts = {0, 4, 12, 24, 64}
   Ks = {7, 8, 15, 16, 31, 32, 63, 64}
   FltDesign = FALSE
 INVARIANTS XDesignSound XDigitsSound XPrintedSound
